@@ -1,7 +1,7 @@
 SPECIFICATION Spec
 CONSTANTS
   MaxUnits = 2
-  MaxPrefixes = 1
+  MaxPrefixes = 2
   MaxLen = 4
   KindMode = "all"
 INVARIANTS Theorems Emit
